@@ -291,6 +291,16 @@ Proof.
       destruct (nth_error defs i) as [body|]; [| inv H; apply ext_refl].
       destruct (m_seq (meval defs n ((true, fn_tag i) :: sc) tb) body VNil st) as [o st1] eqn:E.
       eapply m_catch_frame; eauto. intro. eapply m_seq_frame; eauto.
+    + (* Unless *)
+      destruct (meval defs n sc tb f st) as [o st1] eqn:E. destruct o; try solve [inv H; eapply IH; eauto].
+      assert (X : ext st st1) by (eapply IH; eauto with c07).
+      destruct (is_marker v); [inv H; exact X|].
+      destruct (is_nil (prim v)); [eapply ext_trans; [exact X | eapply m_seq_frame; eauto] | inv H; exact X].
+    + (* If *)
+      destruct (meval defs n sc tb f1 st) as [o st1] eqn:E. destruct o; try solve [inv H; eapply IH; eauto].
+      assert (X : ext st st1) by (eapply IH; eauto with c07).
+      destruct (is_marker v); [inv H; exact X|].
+      destruct (is_nil (prim v)); (eapply ext_trans; [exact X | eapply IH; eauto]).
 Qed.
 
 (* ================================================================================================ *)
@@ -442,4 +452,12 @@ Proof.
       eapply catch_frame; eauto. intros o1 Ho1 T1.
       destruct (s_seq (seval defs n [fn_tag i] []) body VNil st) as [o2 st2] eqn:E. cbn in *. subst.
       eapply s_seq_frame; eauto.
+    + (* Unless *)
+      destruct (seval defs n bl tg f st) as [o1 st1] eqn:E. destruct o1; try solve [inv H; eapply IH; eauto].
+      assert (X : ext st st1) by (eapply IH; eauto with c07).
+      destruct (is_nil v); [eapply ext_trans; [exact X | eapply s_seq_frame; eauto] | inv H; exact X].
+    + (* If *)
+      destruct (seval defs n bl tg f1 st) as [o1 st1] eqn:E. destruct o1; try solve [inv H; eapply IH; eauto].
+      assert (X : ext st st1) by (eapply IH; eauto with c07).
+      destruct (is_nil v); (eapply ext_trans; [exact X | eapply IH; eauto]).
 Qed.
